@@ -6,6 +6,7 @@ integers and lists.  Engine primitives `duck…` carry an ASSUMED meaning (valid
 The values of engine-native pass-through functions are not decided here (see `C17_full_statement`).
 -/
 import SqlframeModel.Impl.C17
+import SqlframeModel.Impl.C17Soundex
 namespace Sqlframe
 open Gen.Emul C17
 
@@ -243,6 +244,176 @@ theorem C17_pad_orders {σ : Type} (padFn : Bool → σ → Int → σ → σ) (
     emulPad padFn rpadThis rpadLength rpadFill rpadIsLeft dS col n p = padFn false col n p := by
   simp [emulPad, pick, lpadThis, lpadLength, lpadFill, lpadIsLeft, rpadThis, rpadLength, rpadFill, rpadIsLeft]
 
+-- soundex (util.soundex registered as DuckDB's SOUNDEX) ---------------------------------------------------
+
+private theorem sx_kinds_small : ∀ n, n < 128 → emulKind n = sparkKind n := by decide
+
+private theorem sx_table_ascii : ∀ r ∈ soundexTable, ∀ x ∈ r.1, x < 128 := by decide
+private theorem sx_transp_ascii : ∀ x ∈ soundexTransparent, x < 128 := by decide
+
+/-- soundex, per character and for EVERY code point: the generated code table + transparent letters of
+    `util.soundex` classify it exactly as Spark's US_ENGLISH_MAPPING does (coded digit / H-W transparent / reset). -/
+theorem C17_soundex_kinds (n : Nat) : emulKind n = sparkKind n := by
+  by_cases h : n < 128
+  · exact sx_kinds_small n h
+  · have h1 : sxCodeN n = none := by
+      unfold sxCodeN
+      rw [Option.map_eq_none_iff, List.find?_eq_none]
+      intro r hr hc
+      have := sx_table_ascii r hr n (by simpa using hc)
+      omega
+    have h2 : n ∉ soundexTransparent := by
+      intro hm
+      have := sx_transp_ascii n hm
+      omega
+    have h3 : isUpLetter n = false := by simp [isUpLetter]; omega
+    simp [emulKind, sparkKind, h1, h2, h3]
+
+private def sxCodedOk (n : Nat) : Bool := match sparkKind n with | .coded d => decide (49 ≤ d ∧ d ≤ 54) | _ => true
+private theorem sx_codedOk_small : ∀ n, n < 128 → sxCodedOk n = true := by decide
+
+private theorem sx_coded_range (n d : Nat) (h : sparkKind n = .coded d) : 49 ≤ d ∧ d ≤ 54 := by
+  by_cases hn : n < 128
+  · have := sx_codedOk_small n hn
+    simp [sxCodedOk, h] at this
+    exact this
+  · have h3 : isUpLetter n = false := by simp [isUpLetter]; omega
+    simp [sparkKind, h3] at h
+
+private def SxRel (e : ESt) (s : SSt) : Prop :=
+  e.res = s.res ∧ e.count = s.n ∧
+    (match e.last with | some d => s.last = d | none => ¬ (49 ≤ s.last ∧ s.last ≤ 54))
+
+private theorem step_rel (e : ESt) (s : SSt) (c : Nat) (h : SxRel e s) : SxRel (emulStep e c) (sparkStep s c) := by
+  obtain ⟨hr, hc, hl⟩ := h
+  have hlen : soundexLen = 4 := rfl
+  unfold emulStep sparkStep
+  rw [C17_soundex_kinds c, hlen, hc]
+  by_cases hfull : 4 ≤ s.n
+  · simp [hfull]; exact ⟨hr, hc, hl⟩
+  · simp only [hfull, ↓reduceIte]
+    cases hk : sparkKind c with
+    | transp => dsimp only; exact ⟨hr, hc, hl⟩
+    | reset => dsimp only; exact ⟨hr, rfl, by simp⟩
+    | coded d =>
+      dsimp only
+      have hd := sx_coded_range c d hk
+      cases hlast : e.last with
+      | none =>
+        rw [hlast] at hl
+        have hne : d ≠ s.last := by intro heq; rw [← heq] at hl; exact hl hd
+        simp [hne, hr, hc, SxRel]
+      | some x =>
+        rw [hlast] at hl
+        simp only at hl
+        by_cases hx : d = x
+        · subst hx
+          simp [hl, SxRel, hr, hc]
+        · have h1 : some d ≠ some x := by simpa using hx
+          have h2 : d ≠ s.last := by rw [hl]; exact hx
+          simp [h1, h2, SxRel, hr, hc]
+
+private theorem run_rel (rest : List Nat) : ∀ e s, SxRel e s → SxRel (rest.foldl emulStep e) (rest.foldl sparkStep s) := by
+  induction rest with
+  | nil => intro e s h; exact h
+  | cons c cs ih => intro e s h; exact ih _ _ (step_rel e s c h)
+
+private theorem init_rel (c : Nat) (hc : isUpLetter c = true) : SxRel ⟨[c], 1, sxCodeN c⟩ ⟨[c], 1, sparkCodeOf c⟩ := by
+  refine ⟨rfl, rfl, ?_⟩
+  have hk := C17_soundex_kinds c
+  simp only [emulKind, sparkKind, hc, ↓reduceIte] at hk
+  cases hcode : sxCodeN c with
+  | some d =>
+    rw [hcode] at hk
+    simp only at hk
+    by_cases h7 : sparkCodeOf c = 55
+    · simp [h7] at hk
+    · by_cases h0 : sparkCodeOf c = 48
+      · simp [h7, h0] at hk
+      · simp [h7, h0] at hk
+        simp [hk]
+  | none =>
+    rw [hcode] at hk
+    simp only
+    by_cases h7 : sparkCodeOf c = 55
+    · omega
+    · by_cases h0 : sparkCodeOf c = 48
+      · omega
+      · simp [h7, h0] at hk
+        split at hk <;> simp at hk
+
+/-- soundex: for EVERY string that starts with an ASCII letter, `util.soundex` (DuckDB's SOUNDEX) is Spark's soundex. -/
+theorem C17_soundex_partial (s : List Nat) (h : H_soundexFirstLetter s) : emulSoundexN s = sparkSoundexN s := by
+  obtain ⟨c, rest, hs, hc⟩ := h
+  unfold emulSoundexN sparkSoundexN
+  rw [hs]
+  simp only [hc, ↓reduceIte]
+  obtain ⟨hr, hn, _⟩ := run_rel rest _ _ (init_rel c hc)
+  simp only [emulRun, sparkRun]
+  rw [hr, hn]
+  rfl
+
+private theorem step_inv (e : ESt) (c : Nat) (h : e.res.length = e.count ∧ e.count ≤ soundexLen) :
+    (emulStep e c).res.length = (emulStep e c).count ∧ (emulStep e c).count ≤ soundexLen := by
+  unfold emulStep
+  by_cases hf : soundexLen ≤ e.count
+  · simp [hf]; exact h
+  · simp only [hf, ↓reduceIte]
+    cases emulKind c with
+    | transp => exact h
+    | reset => exact h
+    | coded d =>
+      dsimp only
+      by_cases hd : some d ≠ e.last
+      · rw [if_pos hd]
+        simp only [List.length_append, List.length_singleton]
+        omega
+      · rw [if_neg hd]; exact h
+
+private theorem run_inv (rest : List Nat) : ∀ e : ESt, (e.res.length = e.count ∧ e.count ≤ soundexLen) →
+    ((rest.foldl emulStep e).res.length = (rest.foldl emulStep e).count ∧ (rest.foldl emulStep e).count ≤ soundexLen) := by
+  induction rest with
+  | nil => intro e h; exact h
+  | cons c cs ih => intro e h; exact ih _ (step_inv e c h)
+
+/-- soundex of a non-empty string always has `soundexLen` (= 4) characters: the first one + digits / padding. -/
+theorem C17_soundex_length (s : List Nat) (h : s ≠ []) : (emulSoundexN s).length = soundexLen := by
+  unfold emulSoundexN
+  cases hs : s.map upN with
+  | nil => simp at hs; exact absurd hs h
+  | cons c rest =>
+    have hi := run_inv rest ⟨[c], 1, sxCodeN c⟩ ⟨rfl, (by show 1 ≤ soundexLen; decide)⟩
+    simp only [emulRun, List.length_append, List.length_replicate]
+    omega
+
+private theorem step_hw (e : ESt) (x : Nat) (hx : emulKind x = .transp) : emulStep e x = e := by
+  unfold emulStep
+  by_cases hf : soundexLen ≤ e.count
+  · simp [hf]
+  · simp [hf, hx]
+
+/-- the H/W rule for ALL strings: deleting an H or W (any case) after the first character never changes the code,
+    so two same-coded consonants separated only by H/W collapse exactly as adjacent ones do. -/
+theorem C17_soundex_hw_transparent (c : Nat) (a b : List Nat) (x : Nat) (hx : emulKind (upN x) = .transp) :
+    emulSoundexN (c :: (a ++ x :: b)) = emulSoundexN (c :: (a ++ b)) := by
+  simp only [emulSoundexN, List.map_cons, List.map_append, emulRun, List.foldl_append, List.foldl_cons]
+  rw [step_hw _ _ hx]
+
+/-- H, W, h, w are transparent today (generated `soundexTransparent`) -/
+example : emulKind (upN 72) = .transp ∧ emulKind (upN 87) = .transp ∧ emulKind (upN 104) = .transp ∧ emulKind (upN 119) = .transp := by decide
+
+def sxEnc (s : String) : List Nat := s.toList.map Char.toNat
+
+/-- Spark's values (recorded from PySpark 3.5.9) for the classic H/W and same-code-neighbour names -/
+example : emulSoundexN (sxEnc "Ashcraft") = sxEnc "A261" ∧ emulSoundexN (sxEnc "Tymczak") = sxEnc "T522" ∧
+    emulSoundexN (sxEnc "Pfister") = sxEnc "P236" ∧ emulSoundexN (sxEnc "Robert") = sxEnc "R163" := by decide
+example : H_soundexFirstLetter (sxEnc "Ashcraft") := ⟨65, (sxEnc "shcraft").map upN, by decide, by decide⟩
+
+/-- counterexample for `H_soundexFirstLetter`: Spark hands a string that does not start with a letter back unchanged,
+    `util.soundex` encodes it ("  pad  " -> " 130"). -/
+theorem C17_cex_soundexFirstLetter :
+    emulSoundexN (sxEnc "  pad  ") = sxEnc " 130" ∧ sparkSoundexN (sxEnc "  pad  ") = sxEnc "  pad  " := by decide
+
 -- dispatch ----------------------------------------------------------------------------------------------
 
 /-- Every DuckDB row of the generated dispatch table is unsupported, a modelled emulation dispatched to the
@@ -251,7 +422,8 @@ theorem C17_pad_orders {σ : Type} (padFn : Bool → σ → Int → σ → σ) (
 theorem C17_dispatch :
     dispatch.all duckRowOk = true ∧
     (modelled.map (·.1)).all (fun f => modelled.any (fun m => m.1 == f && implOf f "duckdb" == some m.2)) = true ∧
-    modelledDefault.all (fun f => implOf f "duckdb" == none) = true := by decide +kernel
+    modelledDefault.all (fun f => implOf f "duckdb" == none) = true ∧
+    duckSoundexIsUtilSoundex = true := by decide +kernel
 
 -- non-vacuity -------------------------------------------------------------------------------------------
 
